@@ -1,5 +1,6 @@
 import CnbVerif.Lemmas.Determinism2
 import CnbVerif.Lemmas.NodeEq
+import CnbVerif.Lemmas.DeterminismSbom
 /-!
 # C20 — identical inputs give byte-identical layer and phase outputs
 
@@ -14,6 +15,11 @@ level of the directory tree (`canon` = every level sorted by name), which is wha
 The remaining obligations are about the generated facts `Gen.HashSites` (regenerated from /repo on every run): every
 hash-iteration site of the phase and layer code is one the model covers, no serialised phase document has a hash-backed
 field, `toml::Table` is a BTreeMap, no clock / random source is mentioned.
+
+SBOM files (M5): a build result / a layer may carry several SBOMs of one format; they are written from a `Vec` front to
+back (`Model/Determinism.writeBuildResultSboms`, `replaceLayerSbomFiles`), so the file of a (target, format) holds the
+SBOM registered last for it — a function of the Vec alone (`phase_sboms_last_wins`, `layer_sboms_last_wins`), and the
+order of the Vec matters exactly when a format repeats (`sboms_distinct_formats_order_irrelevant`, `sbom_vec_order_matters`).
 
 Partial: the theorems hold on the success paths. On the error path of `replace_layer_exec_d_programs` (a source file is
 missing) the copy loop has already copied an order-dependent subset — `FullStatement` is false
@@ -155,6 +161,67 @@ theorem iteration_order_irrelevant (l : Layer) (t : LTypes) (m : Option MetaTbl)
   obtain ⟨a2, s2⟩ := writeLayerTrait_perm l t m le sb hp₂ he₂ hl hok hnd hall
   exact ⟨a1.trans a2.symm, sameLayer_trans s1 (sameLayer_symm s2)⟩
 
+/-! ### M5: SBOM files are written from a Vec, front to back — the SBOM registered last for a format stays -/
+
+/-- **M5a (`libcnb_runtime_build`, SBOMs of a `BuildResult`).** The build phase writes `build_sboms` and then
+`launch_sboms` in the order in which `BuildResultBuilder::build_sbom` / `launch_sbom` were called. For every file
+`k = (target, format)`: it holds the bytes of the SBOM registered **last** for it, for any number of SBOMs of one format
+(`Spec.Det.lastRegistered` over the registration sequence); a file nothing was registered for is left as it was. The
+right-hand side mentions the two Vecs and the prior file only: no iteration order of a hash container, no other file. -/
+theorem phase_sboms_last_wins (fs : SbomFiles) (build launch : List (Nat × Bytes)) (k : SbomKey) :
+    List.lookup k (writeBuildResultSboms fs build launch) =
+      (lastRegistered k (sbomRegs "build" build ++ sbomRegs "launch" launch)).or (List.lookup k fs) := by
+  unfold writeBuildResultSboms
+  rw [writeSbomVec_lookup, writeSbomVec_lookup, lastRegistered_append]
+  cases lastRegistered k (sbomRegs "launch" launch) <;> simp
+
+/-- **M5a'.** A file some SBOM was registered for does not depend on what the layers directory held before: two runs
+from any two prior states leave the same bytes there. -/
+theorem phase_sboms_depend_on_the_vecs_only (fs₁ fs₂ : SbomFiles) (build launch : List (Nat × Bytes)) (k : SbomKey) (b : Bytes)
+    (h : lastRegistered k (sbomRegs "build" build ++ sbomRegs "launch" launch) = some b) :
+    List.lookup k (writeBuildResultSboms fs₁ build launch) = some b ∧
+      List.lookup k (writeBuildResultSboms fs₂ build launch) = some b := by
+  rw [phase_sboms_last_wins, phase_sboms_last_wins, h]; exact ⟨rfl, rfl⟩
+
+/-- **M5b (`replace_layer_sboms`: `LayerRef::write_sboms`, trait API `Sboms::Replace`).** The layer's SBOM files are
+exactly the last registration per format of the slice handed in (a format not in the slice has no file afterwards,
+whatever was there); the SBOM files of other layers and of the build result are untouched. -/
+theorem layer_sboms_last_wins (name : String) (fs : SbomFiles) (sb : List (Nat × Bytes)) :
+    (∀ f, List.lookup (name, f) (replaceLayerSbomFiles name fs sb) = lastRegistered (name, f) (sbomRegs name sb)) ∧
+    (∀ n f, n ≠ name → List.lookup (n, f) (replaceLayerSbomFiles name fs sb) = List.lookup (n, f) fs) := by
+  constructor
+  · intro f
+    unfold replaceLayerSbomFiles
+    rw [writeSbomVec_lookup, sbom_lookup_filter_base]
+    cases lastRegistered (name, f) (sbomRegs name sb) <;> rfl
+  · intro n f h
+    unfold replaceLayerSbomFiles
+    rw [writeSbomVec_lookup, sbom_lookup_filter_other name n f fs h, lastRegistered_other_base name n f sb h]
+    rfl
+
+/-- **M5c.** When the formats of a Vec are pairwise distinct (at most one SBOM per format — every scenario before the
+`sbom` family) the files do not depend on the order of the Vec: a reordering is invisible there. -/
+theorem sboms_distinct_formats_order_irrelevant (base : String) (fs : SbomFiles) (sb σ : List (Nat × Bytes))
+    (hp : σ.Perm sb) (hnd : (sb.map (·.1)).Nodup) (k : SbomKey) :
+    List.lookup k (writeSbomVec base fs σ) = List.lookup k (writeSbomVec base fs sb) := by
+  rw [writeSbomVec_lookup, writeSbomVec_lookup,
+    lastRegistered_perm k _ _ (sbomRegs_perm base hp) (sbomRegs_keys_nodup base sb hnd)]
+
+/-- four build SBOMs, CycloneDX registered first and again last with other bytes … -/
+def fourSboms : List (Nat × Bytes) := [(0, [1]), (1, [2]), (2, [3]), (0, [4])]
+/-- … and the same four handed on in another order -/
+def fourSbomsReordered : List (Nat × Bytes) := [(0, [4]), (1, [2]), (2, [3]), (0, [1])]
+
+/-- **Sensitivity of M5a.** With a repeated format the order of the Vec decides the bytes: the same four SBOMs in two
+orders leave different `build.sbom.cdx.json` files. Handing the Vec on in an order that is not the registration order
+(e.g. through a hash set, whose order differs per process) therefore breaks the property; M5c is why it stays
+invisible with at most one SBOM per format. -/
+theorem sbom_vec_order_matters :
+    fourSbomsReordered.Perm fourSboms ∧
+      List.lookup ("build", 0) (writeBuildResultSboms [] fourSboms []) = some [4] ∧
+      List.lookup ("build", 0) (writeBuildResultSboms [] fourSbomsReordered []) = some [1] := by
+  refine ⟨by decide, by decide, by decide⟩
+
 /-! ### M2 / M3: obligations on the generated facts -/
 
 /-- **M3.** Every hash-iteration site found in the phase / layer code and in the libcnb-data files of the serialised
@@ -242,6 +309,12 @@ theorem in_place_overwrite_depends_on_order :
     revert this; decide
   · have := congrArg (fun r => Dir.optBeq r.1 (overwriteInPlace fsHard want2).1) h
     revert this; decide
+
+/-- M5: two build SBOMs of one format and a launch SBOM on a directory that already holds files: the later document wins,
+the unregistered file stays -/
+example : List.lookup ("build", 1) (writeBuildResultSboms [(("build", 1), [9]), (("launch", 2), [8])] [(1, [5]), (1, [6])] [(0, [7])]) = some [6] ∧
+    List.lookup ("launch", 2) (writeBuildResultSboms [(("build", 1), [9]), (("launch", 2), [8])] [(1, [5]), (1, [6])] [(0, [7])]) = some [8] := by decide
+example : (([(0, [1]), (1, [2]), (2, [3])] : List (Nat × Bytes)).map (·.1)).Nodup := by decide
 
 end NonVacuity
 
